@@ -1035,6 +1035,8 @@ def clenshaw_q2d(cns, m, usq, alphas=None):
 
     """
     x = usq
+    # the radial polynomials depend on |m| only (the sign selects cos/sin)
+    m = abs(m)
     ds = change_of_basis_Q2d_to_Pnm(cns, m)
     alphas = _initialize_alphas(ds, x, alphas, j=0)
     N = len(ds) - 1
@@ -1085,6 +1087,8 @@ def clenshaw_q2d_der(cns, m, usq, j=1, alphas=None):
     """
     cs = cns
     x = usq
+    # the radial polynomials depend on |m| only (the sign selects cos/sin)
+    m = abs(m)
     N = len(cs) - 1
     alphas = _initialize_alphas(cs, x, alphas, j=j)
     # seed with j=0 (S, not its derivative)
